@@ -753,6 +753,20 @@ def _typed_havoc(L, name, v):
     return v       # objects (self, views, stubs): heap effects are governed by the loop spec
 
 
+def _in_place(old, new):
+    """havoc of a dictionary that the loop mutates: the OBJECT keeps its identity (it may be aliased from the heap, e.g. kept
+    on `self`), only its content becomes the fresh symbolic content"""
+    if isinstance(new, SymMap) and new is not old:
+        if isinstance(old, LazyDict):
+            old._m = new
+            dict.clear(old)
+            return old
+        if isinstance(old, SymMap):
+            old.dom, old.cols = new.dom, dict(new.cols)
+            return old
+    return new
+
+
 class _quiet:
     """spec-side evaluation: no definedness obligations"""
 
@@ -788,7 +802,8 @@ class MapLoop:
         custom = self.spec.havoc(self, env, names) or {}
         out = []
         for n in names:
-            out.append(custom[n] if n in custom else _typed_havoc(self, n, env.get(n)))
+            new = custom[n] if n in custom else _typed_havoc(self, n, env.get(n))
+            out.append(_in_place(env.get(n), new))
         return tuple(out)
 
     def _assume_inv(self, env, done):
